@@ -178,9 +178,9 @@ CHECKS["C15"] = {
     "outside": ["more than one arbitrary line per document", "coverage-guided fuzzing of whole documents (different technique)"],
     "runs": [
         {"name": "run.pl.decoder.media", "dir": "pkg/playlist", "files": C15F, "fn": "VerifH_C15_mediaDecoder", "workers": 16,
-         "params_quick": {"L": 5}, "params_thorough": {"L": 8}, "reach": ["accepted", "rejected"], "budget_quick": 900, "budget_thorough": 7200},
+         "params_quick": {"L": 6}, "params_thorough": {"L": 8}, "reach": ["accepted", "rejected"], "budget_quick": 900, "budget_thorough": 7200},
         {"name": "run.pl.decoder.multi", "dir": "pkg/playlist", "files": C15F, "fn": "VerifH_C15_multiDecoder", "workers": 16,
-         "params_quick": {"L": 5}, "params_thorough": {"L": 8}, "reach": ["accepted", "rejected"], "budget_quick": 900, "budget_thorough": 7200},
+         "params_quick": {"L": 6}, "params_thorough": {"L": 8}, "reach": ["accepted", "rejected"], "budget_quick": 900, "budget_thorough": 7200},
         c15g("run.pl.grammar.header", "VerifH_C14_mediaHeader"), c15g("run.pl.grammar.segment", "VerifH_C14_segment"),
         c15g("run.pl.grammar.parts", "VerifH_C14_parts"), c15g("run.pl.grammar.multivariant", "VerifH_C14_multivariant"),
     ],
